@@ -5,7 +5,6 @@
 # See file LICENSE for details.
 ############################################################################
 
-import json
 import logging
 import os
 import re
@@ -70,12 +69,3 @@ def normalize_path(config_path, file_path):
         return os.path.normpath(file_path)
     else:
         return os.path.normpath(os.path.join(os.path.dirname(config_path), file_path))
-
-
-def dump_json_atomically(obj, file_path):
-    # several IsoQuant processes may share these files: write a temporary file in the same folder and rename it,
-    # so that a concurrent reader never observes a truncated or half-written file
-    tmp_path = "%s.%d.tmp" % (file_path, os.getpid())
-    with open(tmp_path, 'w') as f_out:
-        json.dump(obj, f_out)
-    os.replace(tmp_path, file_path)
